@@ -42,6 +42,18 @@ Fixpoint single (c : comb) : bool :=
   | _ => false
   end.
 
+Definition is_fixstr (c : comb) : bool := match c with FixStr _ => true | _ => false end.
+
+(* every Tupl element decodes to exactly one item (or none, FixStr): Tupl.serialize hands an
+   element its whole item list but writes only what the first serialize call consumes *)
+Fixpoint tupl_single (c : comb) : bool :=
+  match c with
+  | Tupl l => forallb (fun x => (single x || is_fixstr x) && tupl_single x) l
+  | OneOf l => forallb tupl_single l
+  | Seq c1 _ | Grid c1 _ | ValuedRooms c1 _ _ => tupl_single c1
+  | _ => true
+  end.
+
 (* the allowed outcomes: a result (None or a value), or the one exception class callers are told to expect *)
 Definition safe {A} (r : res A) : Prop :=
   match r with Ok _ => True | Err e => e = ValueError end.
